@@ -65,6 +65,7 @@ BrokerReply(kerr) ==
 \* the network delivers the next piece of the stream
 Deliver(f) ==
   /\ f \in DOMAIN deliv /\ ~peerClosed
+  /\ ~closed          \* what arrives after the client closed its end is never read
   /\ \A g \in 1 .. f - 1 : deliv[g] = "full"
   /\ deliv[f] # "full"
   /\ deliv' = [deliv EXCEPT ![f] = IF @ = "none" THEN "hdr" ELSE "full"]
@@ -158,7 +159,8 @@ C11_OtherErrCloses ==
   \A o \in Ops : op[o].result = "ioError" => closed
 \* and bytes of one response are never interpreted as part of another
 C11_NeverMisaligned == mis => closed
-C11_NoSpuriousNoProgress == \A o \in Ops : op[o].result # "noProgress"
+\* (after a transport failure leftover buffered bytes may still be taken for a header)
+C11_NoSpuriousNoProgress == \A o \in Ops : op[o].result = "noProgress" => closed
 \* once closed, every later operation fails
 C11_ClosedStaysFailed ==
   [][\A o \in Ops : (closed /\ op[o].pc = "idle" /\ op'[o].pc # "idle") => op'[o].result = "ioError"]_vars
